@@ -248,6 +248,9 @@ where
         let mut dirs = HashMap::new();
         let mut id_builder = IdBuilder::default();
 
+        // The root directory exists even if the archive is empty
+        register_dir(&mut dirs, SharedString::from(""));
+
         for index in 0..len {
             let file = archive.by_index(index)?;
             register_file(file, index, &mut files, &mut dirs, &mut id_builder);
